@@ -299,6 +299,15 @@ def ht_monitor(case, res):
                 return ("login(%r) authenticated as %r, the mapped login is %r" % (l, r[1], ml), None)
             if not any(ht_oracle_verify(cfg["enc"], d, pw) for _, d in ents):
                 return ("login(%r, %r) succeeded but no entry of the file for %r verifies that password (entries %r)" % (l, pw, ml, ents), None)
+            # duplicates: the file's own rule is "first entry counts, later ones are ignored" (bcrypt digests are
+            # dropped when the module is not loaded); valid for a dict built by a re-read of this very text
+            import re
+            loaded = cfg["enc"] in ("bcrypt", "autodetect") and cfg["module"]
+            kept = [d for _, d in ents if loaded or not (re.match(r"^\$2(a|b|x|y)?\$", d) and len(d) == 60)]
+            reread = (not cfg["cache"]) or eff != H.decode_file(case["file0"]["data"])
+            if reread and kept and not ht_oracle_verify(cfg["enc"], kept[0], pw):
+                return ("login(%r, %r) succeeded although the first entry for %r (%r) does not verify it -- a later, ignored duplicate does"
+                        % (l, pw, ml, kept[0]), None)
         else:
             # completeness, in the unambiguous situation: exactly one entry for the login, and it verifies
             if len(ents) == 1 and ht_oracle_verify(cfg["enc"], ents[0][1], pw) and H.real_verify("SMd5", "x", pw) != "VRaise":
@@ -415,6 +424,8 @@ def live_monitor(ctx):
             with impl.Server(conf) as srv:
                 for _ in range(ctx.n(40, 400)):
                     l, pw = rng.choice(logins), rng.choice(pws)
+                    if rng.random() < 0.5:
+                        l, pw = rng.choice([("alice", "apw"), ("bob", "bpw"), ("Alice@Example.com", "xpw"), ("ALICE", "apw"), ("bob@x", "bpw")])
                     if oracle is None:
                         ret = rng.choice([l, "", "zed", "a/b", "..", l.upper()])
                         plug.STATE["script"] = {(l, pw): ret}
@@ -466,6 +477,33 @@ def live_monitor(ctx):
     ctx.extra["live_requests"] = n
 
 
+def skeleton_obligation(ctx):
+    """Tie T, second part: Proofs/C05GenEqGate.v (regenerated statement skeleton of _handle_request = the one the
+    model was written from), compiled on its own so that it breaks alone."""
+    from translate import t_c05
+    with core.coq_lock():
+        errs = t_c05.generate(core.REPO, os.path.join(core.COQ, "Gen"))
+        ctx.obligation("translate:GateSkelGen", "GateSkelGen" not in errs, errs.get("GateSkelGen", ""))
+        rc, out = core.make(["Proofs/C05GenEqGate.vo"])
+        detail = ""
+        if rc != 0:
+            try:
+                import difflib
+                import re
+                gen = open(os.path.join(core.COQ, "Gen/GateSkelGen.v")).read()
+                exp = open(os.path.join(core.COQ, "Proofs/C05GenEqGate.v")).read()
+                a = re.findall(r'^  "(.*)";?$', exp, re.M)
+                b = re.findall(r'^  "(.*)";?$', gen, re.M)
+                detail = "skeleton of _handle_request changed:\n" + "\n".join(
+                    l for l in difflib.unified_diff(a, b, "modelled", "repository", lineterm="", n=1))[:1200]
+            except OSError:
+                detail = out[-800:]
+        ctx.obligation("Proofs/C05GenEqGate.v:Gen_gate_skeleton_eq", rc == 0, detail)
+        hits = core.forbidden_scan(["Proofs/C05GenEqGate.v"])
+        if hits:
+            ctx.obligation("no-forbidden-vernacular:C05GenEqGate", False, "\n".join(hits))
+
+
 # ====================================================================================== entry points
 def run(ctx):
     ctx.rule = ("gate: one WSGI environ x configuration x scripted back-end/handler/rights answers, distinct by all of these, "
@@ -484,7 +522,8 @@ def run(ctx):
     ctx.trusted += ["translate/t_c05.py (login-map translation, gate statement skeleton)",
                     "vlib/x_C05*.py: instrumentation of the real Application (do_* / _login / create_collection wrapped on the instance), "
                     "classification of CONTENT_LENGTH by int(), tables of library answers"]
-    ctx.prove()
+    ctx.prove(extra_targets=["Gen/GateSkelGen.vo"])
+    skeleton_obligation(ctx)
     text_suite(ctx)
     gate_suite(ctx)
     htpasswd_suite(ctx)
